@@ -2,7 +2,7 @@
 import ast
 
 from ..astutil import (walk_shallow, dotted, call_attr, short, src, stmt_of, names_loaded, is_const, enclosing,
-                       compare_parts, strip_not, const, bool_operands)
+                       compare_parts, strip_not, const, bool_operands, is_none)
 from ..loader import AnalysisError
 from .. import rules as T
 from .. import regexast as RX
@@ -100,7 +100,7 @@ def check(P, R):
                  why='an unguarded setter lets CR/LF/NUL into the header list')
     # HeaderProperty.__set__ stores through obj.headers[...]
     hp = P.func(f'{CH}:HeaderProperty.__set__')
-    stores = [st for st in walk_shallow(hp.node) if isinstance(st, ast.Assign)]
+    stores = [st for st in walk_shallow(hp.node) if isinstance(st, ast.Assign) and not all(isinstance(t, ast.Name) for t in st.targets)]
     R.require(stores, 'HeaderProperty.__set__: no store')
     for st in stores:
         ok = all(isinstance(t, ast.Subscript) and (dotted(t.value) or '').endswith('.headers') for t in st.targets)
@@ -158,12 +158,24 @@ def check_guard(P, R):
     ok = False
     for n in g.nodes:
         if n.kind == 'test' and any(isinstance(x, ast.Call) and dotted(x.func) == 'isinstance' for x in ast.walk(n.ast)):
-            t, neg = strip_not(n.ast)
-            lab = 'true' if neg else 'false'
-            reach = g.reachable_from(T.succ_by_label(n, lab))
+            # which way does the test go for a value that is not None and not of an admitted type?
+            def atom(e):
+                if isinstance(e, ast.Call) and dotted(e.func) == 'isinstance' and e.args and src(e.args[0]) == p:
+                    return False
+                cp_ = compare_parts(e)
+                if cp_ and src(cp_[0]) == p and is_none(cp_[2]) and cp_[1] in (ast.Is, ast.IsNot):
+                    return cp_[1] is ast.IsNot
+                return None
+            tv = T.truth(n.ast, atom)
+            if tv is None:
+                continue
+            reach = g.reachable_from(T.succ_by_label(n, 'true' if tv else 'false'))
             if g.exit not in reach and any(m.kind == 'stmt' and isinstance(m.ast, ast.Raise) for m in reach):
-                types = {src(e) for x in ast.walk(n.ast) if isinstance(x, ast.Call) and dotted(x.func) == 'isinstance'
-                         for e in (x.args[1].elts if isinstance(x.args[1], ast.Tuple) else [x.args[1]])}
+                types = set()
+                for x in ast.walk(n.ast):
+                    if isinstance(x, ast.Call) and dotted(x.func) == 'isinstance' and len(x.args) == 2:
+                        tv_ = T.module_value(f, x.args[1])
+                        types |= {src(e) for e in (tv_.elts if isinstance(tv_, ast.Tuple) else [tv_])}
                 ok = types <= {'str', 'int', 'float', 'bool'} and 'str' in types
                 R.ob('C14.c', f, n.ast, ok, text=f'type guard {sorted(types)}', detail='' if ok else 'the type guard admits non-scalar types')
     if not ok:
@@ -213,8 +225,17 @@ def check_guard(P, R):
                 # any(c in value for c in '\r\n\0')
                 for gen in [y for y in ast.walk(x) if isinstance(y, ast.GeneratorExp)]:
                     it = gen.generators[0].iter
-                    if isinstance(it, ast.Constant) and isinstance(it.value, str):
-                        rejected |= set(it.value)
+                    tg = gen.generators[0].target
+                    cp_ = compare_parts(gen.elt)
+                    if not (cp_ and cp_[1] is ast.In and isinstance(tg, ast.Name) and src(cp_[0]) == tg.id and isinstance(cp_[2], ast.Name)
+                            and not gen.generators[0].ifs and len(gen.generators) == 1):
+                        continue
+                    try:
+                        chars_ = T.ceval(f, it)
+                    except T.CannotEval:
+                        continue
+                    if isinstance(chars_, (str, tuple, list, set, frozenset)) and all(isinstance(c_, str) for c_ in chars_):
+                        rejected |= set(chars_)
     for ch in sorted(CTL):
         ok = ch in rejected
         R.ob('C14.c', f, f.node, ok, text=f'rejects {ch!r} anywhere in the value', detail='' if ok else
@@ -230,29 +251,87 @@ def check_guard(P, R):
 def check_emission(P, R):
     f = P.func(f'{RS}:BaseResponse.headerlist')
     g, rd = f.cfg, f.rd
-    # list comprehension emitting tuples (name, val.encode('utf8').decode('latin1')) with inner loop over list values
-    comps = [n for n in walk_shallow(f.node) if isinstance(n, ast.ListComp)]
-    ok, det = False, 'no list comprehension building the header list'
+    # every (name, value) pair put into the returned list: value transcoded utf8 -> latin1; list-valued headers once per element
+    def codec(e):
+        v = const(e)
+        return str(v).lower().replace('-', '').replace('_', '').replace('iso88591', 'latin1') if isinstance(v, str) else None
+
+    def transcode_of(e):
+        """e == <x>.encode('utf8').decode('latin1')  ->  x"""
+        if isinstance(e, ast.Call) and call_attr(e) == 'decode' and len(e.args) == 1 and codec(e.args[0]) == 'latin1':
+            inner_ = e.func.value
+            if isinstance(inner_, ast.Call) and call_attr(inner_) == 'encode' and len(inner_.args) == 1 and codec(inner_.args[0]) == 'utf8':
+                return inner_.func.value
+        return None
+
+    def is_list_test(t, name):
+        t_, neg_ = strip_not(t)
+        if isinstance(t_, ast.Call) and dotted(t_.func) == 'isinstance' and len(t_.args) == 2 and src(t_.args[0]) == name and src(t_.args[1]) == 'list':
+            return (True, neg_)
+        return (False, False)
+
+    emitted = []      # (node for the report, value expr, at cfg node, ok_multi, where)
+    comps = [n for n in walk_shallow(f.node) if isinstance(n, ast.ListComp) and isinstance(n.elt, ast.Tuple) and len(n.elt.elts) == 2]
     for c in comps:
-        if isinstance(c.elt, ast.Tuple) and len(c.elt.elts) == 2 and len(c.generators) == 2:
-            val = c.elt.elts[1]
-            trans = src(val).replace('"', "'").replace('utf-8', 'utf8').replace('latin-1', 'latin1').replace('iso-8859-1', 'latin1')
-            inner = c.generators[1]
-            v = inner.target.id if isinstance(inner.target, ast.Name) else None
-            okt = trans == f"{v}.encode('utf8').decode('latin1')"
-            it = inner.iter
-            okl = isinstance(it, ast.IfExp) and 'isinstance' in src(it.test) and 'list' in src(it.test) and isinstance(it.orelse, ast.List)
-            ok = okt and okl
-            det = '' if ok else ('values are not transcoded utf8->latin1' if not okt else 'list-valued headers are not emitted once per element')
-    R.ob('C14.d', f, comps[0] if comps else f.node, ok, text='(name, v.encode(utf8).decode(latin1)) per value', detail=det,
-         why='every emitted value must be a latin-1 native string, multi-valued headers once per value in order')
+        if len(c.generators) != 2:
+            continue
+        inner = c.generators[1]
+        outer_t = c.generators[0].target
+        vals_n = outer_t.elts[1].id if isinstance(outer_t, ast.Tuple) and len(outer_t.elts) == 2 and isinstance(outer_t.elts[1], ast.Name) else None
+        it = inner.iter
+        okl = False
+        if isinstance(it, ast.IfExp) and vals_n:
+            is_l, neg_ = is_list_test(it.test, vals_n)
+            scalar = it.body if neg_ else it.orelse
+            listy = it.orelse if neg_ else it.body
+            okl = is_l and isinstance(scalar, ast.List) and len(scalar.elts) == 1 and src(scalar.elts[0]) == vals_n and src(listy) == vals_n
+        x = transcode_of(c.elt.elts[1])
+        okt = x is not None and isinstance(inner.target, ast.Name) and src(x) == inner.target.id
+        emitted.append((c, okt, okl))
+    for ap in [c for c in walk_shallow(f.node) if isinstance(c, ast.Call) and call_attr(c) == 'append' and len(c.args) == 1
+               and isinstance(c.args[0], ast.Tuple) and len(c.args[0].elts) == 2 and len(T.loops_of(c)) == 2]:
+        inner_l, outer_l = T.loops_of(ap)[0], T.loops_of(ap)[1]
+        if not (isinstance(inner_l, ast.For) and isinstance(outer_l, ast.For)):
+            continue
+        an = g.node_of_stmt(ap)[0]
+        x = transcode_of(T.expand(f, ap.args[0].elts[1], an))
+        okt = x is not None and isinstance(inner_l.target, ast.Name) and src(x) == inner_l.target.id
+        # the inner loop runs over the stored value, wrapped into a one-item list when it is not a list
+        okl = False
+        if isinstance(inner_l.iter, ast.Name):
+            hn_ = g.nodes_for(inner_l)[0]
+            ds = rd.at(hn_, inner_l.iter.id)
+            wraps = [d for d in ds if d.kind == 'assign' and isinstance(d.value, ast.List) and len(d.value.elts) == 1 and src(d.value.elts[0]) == inner_l.iter.id]
+            raw = [d for d in ds if d not in wraps]
+            guarded = False
+            for d in wraps:
+                for tn in g.nodes:
+                    if tn.kind == 'test':
+                        is_l, neg_ = is_list_test(tn.ast, inner_l.iter.id)
+                        if is_l and g.edge_dominates(tn, 'true' if neg_ else 'false', d.node):
+                            guarded = True
+            okl = bool(wraps) and bool(raw) and guarded
+        elif isinstance(inner_l.iter, ast.IfExp):
+            is_l, neg_ = is_list_test(inner_l.iter.test, src(inner_l.iter.orelse if neg_ else inner_l.iter.body))
+            okl = is_l
+        emitted.append((ap, okt, okl))
+    if not emitted:
+        R.undecided('C14.d', f, f.node, 'header list construction', 'neither a two-level list comprehension nor nested loops appending (name, value) pairs')
+    for (node_, okt, okl) in emitted:
+        ok = okt and okl
+        det = '' if ok else ('values are not transcoded utf8->latin1' if not okt else 'list-valued headers are not emitted once per element')
+        R.ob('C14.d', f, node_, ok, text='(name, v.encode(utf8).decode(latin1)) per value', detail=det,
+             why='every emitted value must be a latin-1 native string, multi-valued headers once per value in order')
     # cookies transcoded
     cookie_appends = [c for c in walk_shallow(f.node) if isinstance(c, ast.Call) and call_attr(c) == 'append' and 'Set-Cookie' in src(c)]
     R.ob('C14.d', f, f.node, bool(cookie_appends), text='cookies emitted', detail='' if cookie_appends else 'no Set-Cookie emission', nontrivial=False)
     for c in cookie_appends:
-        s = src(c).replace('"', "'").replace('utf-8', 'utf8').replace('latin-1', 'latin1')
-        ok = ".OutputString().encode('utf8').decode('latin1')" in s
-        R.ob('C14.d', f, c, ok, detail='' if ok else 'cookie text is not transcoded utf8->latin1')
+        ok = False
+        if c.args and isinstance(c.args[0], ast.Tuple) and len(c.args[0].elts) == 2:
+            x = transcode_of(T.expand(f, c.args[0].elts[1], g.node_of_stmt(c)[0]))
+            ok = x is not None and isinstance(x, ast.Call) and call_attr(x) == 'OutputString'
+        R.ob('C14.d', f, c, ok, text="out.append(('Set-Cookie', <morsel>.OutputString().encode('utf8').decode('latin1')))",
+             detail='' if ok else 'cookie text is not transcoded utf8->latin1')
     # blacklist: filter applied under `if bad_headers`, default content type withheld on that branch
     bt = [n for n in g.nodes if n.kind == 'test' and isinstance(n.ast, ast.Name) and any(
         d.value is not None and 'bad_headers' in src(d.value) and '_status_code' in src(d.value) for d in rd.at(n, n.ast.id))]
@@ -261,9 +340,25 @@ def check_emission(P, R):
     if bt:
         b = bt[0]
         bname = b.ast.id
-        filt = [d for n in g.nodes for d in rd.gen.get(n, []) if d.value is not None and isinstance(d.value, ast.GeneratorExp)
+        filt = [d.stmt for n in g.nodes for d in rd.gen.get(n, []) if d.value is not None and isinstance(d.value, ast.GeneratorExp)
                 and 'not in' in src(d.value) and bname in src(d.value) and g.edge_dominates(b, 'true', n)]
-        R.ob('C14.d', f, filt[0].stmt if filt else b.ast, bool(filt), text='headers filtered by the blacklist', detail='' if filt else
+        if not filt:
+            # loop form: inside the emitting loop `if <name> in <blacklist>: continue` before the pair is appended
+            for (node_, _, _) in emitted:
+                if not isinstance(node_, ast.Call):
+                    continue
+                an = g.node_of_stmt(node_)[0]
+                outer_l = T.loops_of(node_)[1]
+                nm = outer_l.target.elts[0].id if isinstance(outer_l.target, ast.Tuple) and isinstance(outer_l.target.elts[0], ast.Name) else None
+                head_ = g.nodes_for(outer_l)[0]
+                for tn in g.nodes:
+                    if tn.kind != 'test' or not T._inside(tn.ast, outer_l.body):
+                        continue
+                    cps_ = [compare_parts(x_) for x_ in bool_operands(tn.ast, ast.And)]
+                    if any(cp_ and cp_[1] is ast.In and src(cp_[0]) == nm and src(cp_[2]) == bname for cp_ in cps_):
+                        if not g.can_reach(T.succ_by_label(tn, 'true')[0], an, avoid_nodes=[head_]):
+                            filt.append(tn.ast)
+        R.ob('C14.d', f, filt[0] if filt else b.ast, bool(filt), text='headers filtered by the blacklist', detail='' if filt else
              'stored headers are not filtered by the blacklist')
         # default content type
         dflt = [c for c in walk_shallow(f.node) if isinstance(c, ast.Call) and call_attr(c) == 'append' and 'default_content_type' in src(c)]
@@ -288,7 +383,7 @@ def check_emission(P, R):
     br = P.cls(f'{RS}:BaseResponse')
     tab = br.attrs.get('bad_headers')
     try:
-        val = T.peval(tab) if tab is not None else None
+        val = T.ceval(br, tab) if tab is not None else None
     except T.CannotEval as e:
         raise AnalysisError(f'bad_headers cannot be evaluated: {e}')
     R.require(isinstance(val, dict), 'BaseResponse.bad_headers is not a dict literal')
